@@ -88,6 +88,29 @@ def lock_spec(prop, tier):
     return None
 
 
+def idm_runs(caps, families, bound, budget=60.0, job_budget=30.0):
+    return [dict(h={"kind": "idm", "cap": c}, families=list(families), bound=bound, budget=budget, job_budget=job_budget) for c in caps]
+
+
+def idm_spec(prop, tier):
+    q = tier == "quick"
+    if prop == "C05":
+        if q:
+            return idm_runs((1, 2, 3), ("basic", "over"), 2) + idm_runs((4,), ("basic",), 2)
+        return idm_runs((1, 2, 3), ("basic", "over", "reuse"), 3, 300, 120) + idm_runs((4,), ("basic", "over"), 2, 300, 120)
+    if prop == "C14":
+        if q:
+            return idm_runs((1, 2, 3), ("over", "reuse"), 2)
+        return idm_runs((1, 2, 3), ("over", "reuse", "big"), 3, 300, 120) + idm_runs((4,), ("over", "reuse"), 2, 300, 120)
+    if prop == "C15":
+        if q:
+            return idm_runs((1, 2, 3), ("basic", "over", "reuse"), 2)
+        return idm_runs((1, 2, 3), ("basic", "over", "reuse", "big"), 3, 300, 120) + idm_runs((4,), ("basic", "reuse"), 2, 300, 120)
+    return None
+
+
+IDM_PROPS = {"C05", "C14", "C15"}
+
 LOCK_PROPS = {"C01", "C02", "C03", "C07", "C08", "C09", "C10", "C11", "C12", "C13"}
 
 LEVEL_NOTE = ("bounded exhaustive schedule exploration of the compiled library under a serialising scheduler "
@@ -98,6 +121,8 @@ def run_check(prop, tier):
     if prop in LOCK_PROPS:
         runs = lock_spec(prop, tier)
         return e1.check_property(prop, tier, runs, LEVEL_NOTE, TRUST)
+    if prop in IDM_PROPS:
+        return e1.check_property(prop, tier, idm_spec(prop, tier), LEVEL_NOTE, TRUST)
     print("no check registered for %s" % prop)
     return 2
 
@@ -107,6 +132,8 @@ def setup():
     for lk in ALL3:
         for retry in (0, 1):
             e1.harness_binary(L(lk, retry))
+    for cap in (1, 2, 3, 4):
+        e1.harness_binary({"kind": "idm", "cap": cap})
     print("setup ok (%.1fs)" % (time.time() - t0))
     return 0
 
